@@ -1106,8 +1106,7 @@ class EatData(Contract):
         start = X.env['start'].t
         upto = z3.SubSeq(self.W, 0, L(self.prev) + start)
         return [('start_in_range', z3.And(start >= self.base, start <= L(self.chunk) + L(self.T))),
-                ('pending_expectation_is_sound', self._pending_ok(X, X.env['trest'], X.env['trest_len'], upto)),
-                ('no_partial_block_yet', z3.BoolVal(isinstance(X.env.get('part'), VNone)))]
+                ('pending_expectation_is_sound', self._pending_ok(X, X.env['trest'], X.env['trest_len'], upto))]
 
     def havoc_override(self, X, k, name):
         if name in ('trest', 'trest_len'):
@@ -1116,8 +1115,6 @@ class EatData(Contract):
                 self._shape = X.choose(2, 'local expectation at the loop head: None | set')
                 return NONE if self._shape == 0 else X.fresh_bytes('trest')
             return NONE if self._shape == 0 else X.fresh_int('trest_len')
-        if name == 'part':
-            return NONE
         return None
 
     @property
